@@ -455,7 +455,7 @@ func cookieCarries(v PValue) bool {
 }
 
 func runC05(ctx *Ctx) error {
-	ctx.Res.Rule = "TAB: ParameterDefinition.Style()/Explode() executed on every (location, style?, explode?) and the literal arguments of every runtime call in code generated for the whole shape space (client + 7 servers) -> Gen/C05.lean; RUN: per styled shape and framework, seeded representable values: (a) the request built by the generated client carries exactly oasWire (queries compared after URL-decoding), (b) a hand-serialised oasWire request is decoded by the generated server to the value; CORR of the Lean codec vs the pinned runtime; non-trivial = every case"
+	ctx.Res.Rule = "TAB: ParameterDefinition.Style()/Explode() executed on every (location, style?, explode?) and the literal arguments of every runtime call in code generated for the whole shape space (client + 7 servers) -> Gen/C05.lean; RUN: per styled shape and framework, seeded representable values: (a) the request built by the generated client carries exactly oasWire (queries compared after URL-decoding), (b) a hand-serialised oasWire request is decoded by the generated server to the value; CORR of the Lean codec vs the pinned runtime; non-trivial = every case Session 9: TRANS Gen/StyleDefaults.lean; call sites of a two-document specification with same-named parameter components; three cookie parameters in one request; optional query parameters next to a form body with the same field names."
 	if err := corrCodec(ctx, "C05"); err != nil {
 		return err
 	}
